@@ -134,6 +134,46 @@ def unit_check_resets():
     return ProofUnit("checks.reset", "reset() of the built-in checks establishes the empty state whatever the previous state", ["C08", "C05"], make, None)
 
 
+class DefaultHooksOracle(Oracle):
+    """native twin: a user-defined check that overrides nothing is asked through every hook"""
+    bound = "4 hooks x a check class without overrides, called directly and through a reader over 0-2 rows"
+    def cases(self, ctx): return [("reset", 0), ("check_row", 0), ("check_at_end", 0), ("cleanup", 0), ("reader", 0), ("reader", 1), ("reader", 2)]
+    def check(self, c):
+        import io
+        from cutplace import checks, errors, interface, validio
+        hook, n = c
+        cls = type("BareDefaultsCheck", (checks.AbstractCheck,), {})
+        if hook == "reader":
+            cid = interface.Cid(); cid.read("c", [["d", "format", "delimited"], ["f", "a"], ["c", "bare", "BareDefaults", "a"]])
+            try: got = list(validio.rows(cid, io.StringIO("x\n" * n)))
+            except Exception as e: return {"expected": "%d rows accepted" % n, "observed": repr(e)}
+            return None if got == [["x"]] * n else {"expected": "%d rows accepted" % n, "observed": repr(got)}
+        chk = cls("bare", "a", ["a"]); before = dict(vars(chk)); loc = errors.Location("<io>", has_cell=True)
+        args = {"reset": (), "check_row": ({"a": "x"}, loc), "check_at_end": (loc,), "cleanup": ()}[hook]
+        try: r = getattr(chk, hook)(*args)
+        except Exception as e: return {"expected": "%s() returns None" % hook, "observed": repr(e)}
+        if r is not None: return {"expected": "%s() returns None" % hook, "observed": repr(r)}
+        after = dict(vars(chk))
+        return None if {k: repr(v) for k, v in after.items()} == {k: repr(v) for k, v in before.items()} else {"expected": "attributes unchanged", "observed": repr(sorted(after))}
+
+
+def unit_abstract_check_defaults():
+    """the hooks a user-defined check does not override: AbstractCheck.reset / check_row / check_at_end / cleanup accept, return None and change nothing"""
+    def make(ctx):
+        out = []
+        for meth, params in (("reset", []), ("check_row", ["field_name_to_value_map", "location"]), ("check_at_end", ["location"]), ("cleanup", [])):
+            def setup(ex, st, params=params):
+                loc = Ref("Location"); st.heap[loc.oid] = loc_fields(fresh(INT, "line")[0], 0)
+                self = Ref("AbstractCheck"); st.heap[self.oid] = {"_description": fresh(STR, "description")[0], "_rule": fresh(STR, "rule")[0], "_field_names": fresh(UFList(STR), "names")[0]}
+                st.frames[-1].env["self"] = self; st.ghost["this"] = self
+                valf = z3.Function("row_value_of_default", z3.StringSort(), z3.StringSort())
+                for p_ in params: st.frames[-1].env[p_] = loc if p_ == "location" else UFMap(STR, STR, valf)
+            none = lambda ex, st: Sym(BOOL, z3.BoolVal(st.ghost["__result__"] is None))
+            out.append({"contract": Contract("checks.AbstractCheck.%s" % meth, setup, returns=[Clause(none, "the-default-hook-accepts:-returns-None", props=["C20"])], raises={}, expect=["return"], n_loops=0, modifies=[]), "label": meth})
+        return out
+    return ProofUnit("checks.AbstractCheck.defaults", "AbstractCheck's default reset / check_row / check_at_end / cleanup: accept, return None, change nothing", ["C20"], make, DefaultHooksOracle())
+
+
 # ---------------------------------------------------------------- DistinctCountCheck
 def setup_distinct(ex, st):
     name = fresh(STR, "field_to_count")[0]
